@@ -335,11 +335,8 @@ func (Spec) MakeData(name enc.Name, config *ndn.DataConfig, content enc.Wire, si
 		}
 		wire[encoder.Data_encoder.SignatureValue_wireIdx] = sigVal
 		// Fix SignatureValue length
-		buf := wire[encoder.Data_encoder.SignatureValue_wireIdx-1]
-		buf[len(buf)-1] = byte(len(sigVal))
-		// TODO: This needs to be fixed for estSigLen >= 253 (urgent)
+		shrink := fixSigValueLength(wire, encoder.Data_encoder.SignatureValue_wireIdx, estSigLen, len(sigVal))
 		// Fix packet length
-		shrink := estSigLen - len(sigVal)
 		wire[0] = enc.ShrinkLength(wire[0], shrink)
 		// }
 	}
@@ -348,6 +345,20 @@ func (Spec) MakeData(name enc.Name, config *ndn.DataConfig, content enc.Wire, si
 		SigCovered: sigCovered,
 		Config:     config,
 	}, nil
+}
+
+// fixSigValueLength rewrites the Length of the SignatureValue TLV, which was encoded for the
+// estimated size estLen, to the actual size sigLen (sigLen <= estLen). The length field is the tail
+// of the buffer preceding the signature slot; it may become shorter (e.g. 3 bytes -> 1 byte), in
+// which case that buffer is truncated. Returns the number of bytes the enclosing TLV shrinks by.
+func fixSigValueLength(wire enc.Wire, sigIdx int, estLen int, sigLen int) int {
+	oldL := enc.TLNum(estLen).EncodingLength()
+	newL := enc.TLNum(sigLen).EncodingLength()
+	buf := wire[sigIdx-1]
+	buf = buf[:len(buf)-oldL+newL]
+	enc.TLNum(sigLen).EncodeInto(buf[len(buf)-newL:])
+	wire[sigIdx-1] = buf
+	return (estLen - sigLen) + (oldL - newL)
 }
 
 func (Spec) ReadData(reader enc.ParseReader) (ndn.Data, enc.Wire, error) {
@@ -439,9 +450,6 @@ func (Spec) MakeInterest(name enc.Name, config *ndn.InterestConfig, appParam enc
 				interest.SignatureInfo.SignatureTime = &t
 			}
 			estSigLen = int(signer.EstimateSize())
-			if estSigLen >= 253 {
-				return nil, ndn.ErrNotSupported{Item: "Too long signature value is not supported"}
-			}
 		}
 	}
 
@@ -461,6 +469,7 @@ func (Spec) MakeInterest(name enc.Name, config *ndn.InterestConfig, appParam enc
 	sigVal := []byte(nil)
 	err := error(nil)
 	sigCovered := enc.Wire(nil)
+	shrinkSigLen := 0
 	if estSigLen > 0 {
 		// Compute signature
 		// Since PacketEncoder only adds a TL, Interest_encoder.SignatureValue_wireIdx is still valid
@@ -478,8 +487,7 @@ func (Spec) MakeInterest(name enc.Name, config *ndn.InterestConfig, appParam enc
 		}
 		wire[ecdr.SignatureValue_wireIdx] = sigVal
 		// Fix SignatureValue length
-		buf := wire[ecdr.SignatureValue_wireIdx-1]
-		buf[len(buf)-1] = byte(len(sigVal))
+		shrinkSigLen = fixSigValueLength(wire, ecdr.SignatureValue_wireIdx, estSigLen, len(sigVal))
 
 		// Don't fix packet length for now, as it may cause trouble
 	}
@@ -511,7 +519,7 @@ func (Spec) MakeInterest(name enc.Name, config *ndn.InterestConfig, appParam enc
 	}
 
 	// Fix packet length
-	shrink := estSigLen - len(sigVal)
+	shrink := shrinkSigLen
 	if shrink > 0 {
 		wire[0] = enc.ShrinkLength(wire[0], shrink)
 	} else if shrink < 0 {
